@@ -659,6 +659,14 @@ def run(run):
     for ck in check_dual_random(run, engine_cv(run)):
         fails += ck.failed
     finish_engine(E, run)
+    # callee contract: the resample an evaluation is compared with is RDMs.subsample(descriptor, drawn groups) -- the contract
+    # C09 generates for it (exactly the drawn groups with their multiplicity, every descriptor gathered alike) is discharged here too
+    from contracts import C09
+    from contracts.common import new_engine
+    E9 = new_engine(run)
+    for ck in C09.check_subsample(run, E9, pid='C04'):
+        fails += ck.failed
+    finish_engine(E9, run)
     bds = []
     try:
         from contracts import C04_c
